@@ -236,6 +236,27 @@ def build_class(case, sm_mod, log, clock, scripts_abs):
 
 
 _pubs = []
+_rivals = []
+
+
+def n_states(case):
+    return len(case["states"])
+
+
+def rival_class(case, sm_mod):
+    ns = {}
+    for k_, st in case["states"].items():
+        i = int(k_)
+
+        def f(self):
+            pass
+        f.__name__ = sname(i)
+        if st["kind"] == "default":
+            ns[sname(i)] = sm_mod.default_state(f)
+        else:
+            ns[sname(i)] = sm_mod.state(f, first=(i == case["first"]), must_finish=not st["must"])
+    _uid[0] += 1
+    return type("Rival%d" % _uid[0], (sm_mod.StateMachine,), ns)
 
 
 def run_impl(case, tag="x"):
@@ -284,6 +305,14 @@ def run_impl(case, tag="x"):
         T = type("Twin%d" % _uid[0], (C,), {}) if twin.get("subclass") else C
         m2 = fresh(T, True, [], cname + "_twin")
     m = fresh(C, False, log, cname)
+    if (len(case["hist"]) + n_states(case)) % 3 == 0:
+        # another, unrelated machine class of the same robot happens to use the same state names with other declarations
+        # (Intake.hold is a plain state, Climber.hold is must_finish); it is built after the machine under test
+        try:
+            _rivals.append(rival_class(case, sm_mod)())
+            del _rivals[:-8]
+        except Exception:      # noqa
+            pass
     if twin and not twin.get("subclass") and len(twin["ops"]) % 2:
         m2 = fresh(C, True, [], cname + "_twin2")      # ... or created after the machine under test
     obs = []
